@@ -174,11 +174,15 @@ impl<'a> BlockFilterHashesProcess<'a> {
             // Update cached block filter hashes.
             let start_index = cached_hashes[index_offset..].len();
             let mut new_cached_hashes = cached_hashes;
+            // The new hashes could be fewer than the cached hashes.
             if end_number > next_cached_check_point_number {
                 let excess_size = (end_number - next_cached_check_point_number) as usize;
                 let new_size = block_filter_hashes.len() - excess_size;
-                new_cached_hashes.extend_from_slice(&block_filter_hashes[start_index..new_size]);
-            } else {
+                if start_index < new_size {
+                    new_cached_hashes
+                        .extend_from_slice(&block_filter_hashes[start_index..new_size]);
+                }
+            } else if start_index < block_filter_hashes.len() {
                 new_cached_hashes.extend_from_slice(&block_filter_hashes[start_index..]);
             }
             self.protocol
